@@ -58,6 +58,9 @@ template <typename A, typename V> static std::string report(const A& a, const V&
     return s;
 }
 
+template <typename A, typename = void> struct can_resize2 : std::false_type {};
+template <typename A> struct can_resize2<A, std::void_t<decltype(std::declval<A&>().resize(std::declval<std::array<size_t,2>>()))>> : std::true_type {};
+
 #define KINDS(X) X(0,nested_arr) X(1,fixed) X(2,hybrid) X(3,dynamic) \
     X(4,ndarray_cs_fb) X(5,ndarray_cs_hb) X(6,ndarray_cs_db) X(7,ndarray_fs_fb) X(8,ndarray_fs_hb) X(9,ndarray_fs_db) \
     X(10,ndarray_hs_fb) X(11,ndarray_hs_hb) X(12,ndarray_hs_db) X(13,ndarray_ds_fb) X(14,ndarray_ds_hb) X(15,ndarray_ds_db) \
@@ -85,8 +88,44 @@ template <typename K1, typename K2> static std::string run_bin(K1 k1, K2 k2, int
         default: return "unsupported";
     } }
 }
+// outer ufuncs: the static size of the view is derived from BOTH operands' size knowledge (index::size_outer);
+// ops 8/9: the second operand is NOT filled to its capacity (resized to (1,2) where its type admits that shape)
+template <typename K1, typename K2> static std::string run_outer(K1 k1, K2 k2, int op) {
+    int ra[1][3] = {{1, 2, 3}}; int rc[3][1] = {{1}, {2}, {3}};
+    auto c = nm::cast(rc, k1); auto d = nm::cast(ra, k2);
+    if constexpr (meta::is_fail_v<decltype(c)> || meta::is_fail_v<decltype(d)>) return "unsupported"; else {
+    switch (op) {
+        case 6: return report(c, view::outer_add(c, d));
+        case 7: return report(d, view::outer_add(d, c));
+        default: break;
+    }
+    auto e = nm::cast(ra, k2);
+    if constexpr (can_resize2<decltype(e)>::value) {
+        std::array<size_t,2> shp{1, 2}; bool ok = true;
+        if constexpr (std::is_void_v<decltype(e.resize(shp))>) e.resize(shp); else ok = e.resize(shp);
+        { const auto got = nm::shape(e); if (!ok || (size_t)nm::len(got) != 2 || (size_t)nm::at(got,0) != 1 || (size_t)nm::at(got,1) != 2) return "skip"; }
+        nm::apply_at(e, std::array<size_t,2>{0,0}) = 5; nm::apply_at(e, std::array<size_t,2>{0,1}) = 7;
+        switch (op) {
+            case 8: return report(c, view::outer_add(c, e));
+            case 9: return report(e, view::outer_add(e, c));
+            default: return "unsupported";
+        }
+    } else return "skip";
+    }
+}
 // second operand kinds: a representative of every shape-knowledge family
-template <typename K1> static std::string run_bin2(K1 k1, const std::string& k2, int op) {
+template <bool OUTER_OK, typename K1> static std::string run_bin2(K1 k1, const std::string& k2, int op) {
+    if (op >= 6) {
+        // fixed-dim std::array-shape (7..9) and clipped-shape (16..18) first operands: the outer view's evaluation is rejected by a
+        // static_assert of the library ("unsupported isequal, mismatched size for packed type") — an unsupported combination
+        if constexpr (OUTER_OK) {
+        if (k2 == "same") return run_outer(k1, k1, op);
+        if (k2 == "fixed") return run_outer(k1, kind::fixed, op);
+        if (k2 == "ndarray_hs_hb") return run_outer(k1, kind::ndarray_hs_hb, op);
+        if (k2 == "ndarray_ds_db") return run_outer(k1, kind::ndarray_ds_db, op);
+        }
+        return "unsupported";
+    }
     if (k2 == "same") return run_bin(k1, k1, op);
     if (k2 == "fixed") return run_bin(k1, kind::fixed, op);
     if (k2 == "ndarray_fs_db") return run_bin(k1, kind::ndarray_fs_db, op);
@@ -114,7 +153,7 @@ static std::string handle(const Case& c) {
     std::string k = c.args[0].raw.substr(2);
     if (c.op == "kb") {
         std::string k2 = c.args[1].raw.substr(2); int op = (int)c.args[2].val;
-#define X(I, NAME) if (k == #NAME) { if constexpr ((I % NKPART) == KPART) return run_bin2(kind::NAME, k2, op); else return "unsupported"; }
+#define X(I, NAME) if (k == #NAME) { if constexpr ((I % NKPART) == KPART) return run_bin2<!((I >= 7 && I <= 9) || I >= 16)>(kind::NAME, k2, op); else return "unsupported"; }
         KINDS(X)
 #undef X
     }
